@@ -493,6 +493,41 @@ func checkBudgetTransport(r *Run, prog *Program, a *Anchors, newParser, maxExprO
 				}
 			}
 		}
+	} else {
+		// no such method: the constructor (or a part of it) applies the options itself — a call of an element of its own
+		// option list with the parser under construction, in a loop over that list
+		optT := prog.Grammar.Types.Scope().Lookup("Option")
+		for _, f := range prog.ModuleFuncs() {
+			if f.Pkg != prog.GrammarSSA || !ctorPart(prog, newParser, f) || optT == nil {
+				continue
+			}
+			for _, b := range f.Blocks {
+				for _, ins := range b.Instrs {
+					c, ok := ins.(*ssa.Call)
+					if !ok || c.Call.StaticCallee() != nil || c.Call.IsInvoke() || len(c.Call.Args) != 1 || !types.Identical(c.Call.Value.Type(), optT.Type()) {
+						continue
+					}
+					root, _ := rootOf(c.Call.Value)
+					for depth := 0; depth < 4; depth++ {
+						par, isP := root.(*ssa.Parameter)
+						if !isP {
+							break
+						}
+						if par.Parent() == newParser {
+							if len(loopBlocksContaining(b)) > 0 {
+								okSO = true
+							}
+							break
+						}
+						next := prog.originOfParam(root, 4) // one step towards the constructor
+						if next == root {
+							break
+						}
+						root, _ = rootOf(next)
+					}
+				}
+			}
+		}
 	}
 	r.Check(pfx+".transport", "setOptions:applies-each", "grammar/grammar.go", okSO, "setOptions must call every option with the parser")
 	okP := false
